@@ -376,7 +376,9 @@ def _search(seed):
 
 def replay(ob, res):
     obs = _search(0)
-    if obs.get("failing"):
+    from pyvc.replay import failing_of
+    if failing_of(obs):
+        obs = dict(obs, failing=failing_of(obs))
         return {"reproduced": True, "call": "serde.deserialize(k, wire(serde.serialize(k, v)))", "input": obs["failing"], "cases_tried": obs.get("cases")}
     return {"reproduced": False, "searched": obs}
 
